@@ -110,3 +110,7 @@ TEXT["C19"]["level"] += (" Gate matrix (part gates): digest ok/bad x fetch outco
                          "x --allow-unsigned x all 64 combinations of operator policy / MCP / TTY / CI / env var / typed confirmation x dry-run, each through the real Install into a fresh directory: "
                          "the artifact (and a manifest entry) may appear only if the bytes were fetched completely, match the declared digest, and a signature was verified or the operator's policy permits the requested unsigned install; "
                          "the verifier is never consulted on bytes that failed the digest check.")
+
+TEXT["C10"]["technique"] += " + site-wide preemption sweep over statement-level scheduling points of both lifecycle services (part flow-preempt)"
+TEXT["C10"]["level"] += (" A second part (flow-preempt) instruments pkg/lifecycle/service.go and pkg/lifecycle-poc/service.go with statement-level scheduling points and, for every site reached in 0- and 1-deviation schedules, holds EVERY goroutine that reaches the site until nothing else can run (the per-node closures of a failing run racing with the run's cleanup goroutine). "
+                         "A scripted long history (failure, user start inside the back-off, quiet period longer than the retry window, failures in a row) checks the retry budget per sliding window.")
